@@ -595,11 +595,11 @@ def run_property(prop, tier, seed, only=None, workers=16, scale=1.0):
     for path, sn, fl, origin in viol_lines:
         print("  failure in %s [%s] %s: %s" % (sn, origin, fl["cls"], fl["msg"].splitlines()[0][:300]))
         print("VIOLATION property=%s replay=%s" % (prop, path))
+    for he in harness_errors[:5]:
+        print("HARNESS-ERROR:", he[:1500])
     if viol_lines:
         return 1
     if harness_errors:
-        for he in harness_errors[:5]:
-            print("HARNESS-ERROR:", he[:1500])
         return 2
     print("OK property=%s tier=%s seed=%s cases=%d nontrivial=%d wall=%.0fs" % (
         prop, tier, seed, evaluations, distinct, time.time() - t0))
